@@ -13,17 +13,22 @@ import dd.bdd as _bdd
 
 class St:
     """A state: real manager + harness ledger of held references."""
-    __slots__ = ('m', 'h')
+    __slots__ = ('m', 'h', 'b')
 
-    def __init__(self, m, h):
+    def __init__(self, m, h, b=None):
         self.m = m
         self.h = h          # list of [signed node, external count, mask]
+        self.b = b or []    # ballast: references held for the whole history, never operands
 
     def __getstate__(self):
-        return (self.m, self.h)
+        return (self.m, self.h, self.b)
 
     def __setstate__(self, s):
-        self.m, self.h = s
+        if len(s) == 2:
+            self.m, self.h = s
+            self.b = []
+        else:
+            self.m, self.h, self.b = s
 
 
 OPS = {'and': 'and', 'or': 'or', 'xor': 'xor', 'implies': 'implies',
@@ -64,6 +69,31 @@ class BddMachine(Machine):
         m = S.new_bdd({n: i for i, n in enumerate(self.names)})
         st = St(m, [])
         if label == 'fresh':
+            return st
+        if label == 'big':
+            # a LARGE manager: every function of three different triples of the names is built
+            # and held as ballast (several hundred nodes, node numbers above 256), then two
+            # operands over far-apart variables are held as ordinary handles
+            import itertools as _it
+            from .sweep import Builder
+            b = Builder(m, U)
+            triples = list(_it.combinations(self.names, 3))[::3][:3]
+            seen = set()
+            for tr in triples:
+                for f in U.all_functions(tr):
+                    if f in seen or f in (0, U.full):
+                        continue
+                    seen.add(f)
+                    r = b.verified(f)
+                    m.incref(r)
+                    st.b.append([r, 1, f])
+            a, z = self.names[0], self.names[-1]
+            for f in (U.var(a) & U.var(z), U.var(a) ^ U.var(self.names[len(self.names) // 2])):
+                r = b.verified(f)
+                m.incref(r)
+                st.h.append([r, 1, f])
+            # some garbage and a warm cache on top
+            m.apply('or', st.h[0][0], st.h[1][0])
             return st
         if label == 'vars':
             # every variable node created (in declaration order) and held
@@ -292,7 +322,7 @@ class BddMachine(Machine):
                 before = set(m._succ)
                 m.collect_garbage(roots=[z[0]])
                 if check:
-                    keep = O.reachable(m, [e[0] for e in h])
+                    keep = O.reachable(m, [e[0] for e in h + st.b])
                     freed = before - set(m._succ)
                     if freed & keep:
                         raise Violation('rooted collection freed a reachable node',
@@ -341,7 +371,7 @@ class BddMachine(Machine):
         return sorted(u for u, c in m._ref.items() if c == 0 and u != 1)
 
     def _after_full_collect(self, st):
-        keep = O.reachable(st.m, [e[0] for e in st.h])
+        keep = O.reachable(st.m, [e[0] for e in st.h + st.b])
         have = set(st.m._succ)
         if have != keep:
             raise Violation(
@@ -352,11 +382,11 @@ class BddMachine(Machine):
     def invariant(self, st):
         m, h, U = st.m, st.h, self.U
         ext = {}
-        for r, c, _ in h:
+        for r, c, _ in h + st.b:
             ext[abs(r)] = ext.get(abs(r), 0) + c
         den = O.Den(m, U)
         O.check(m, ext, U, den)
-        for r, c, mask in h:
+        for r, c, mask in h + st.b:
             if abs(r) not in m._succ:
                 raise Violation('held reference was deleted', ref=r)
             if den(r) != mask:
@@ -364,7 +394,7 @@ class BddMachine(Machine):
                                 got=U.fmt(den(r)), want=U.fmt(mask))
 
     def key(self, st):
-        return S.key(st.m, sorted(st.h))
+        return S.key(st.m, (sorted(st.h), len(st.b)))
 
     def unexpected(self, exc, action):
         return 'exception:%s@%s' % (type(exc).__name__, action[0])
